@@ -419,13 +419,18 @@ def run(ctx):
     ctx.assumptions += ['Event::get returns the modelled field whatever its name (one field per event)', 'strings are identity tokens with one uninterpreted total order', 'capture map as an entry list']
     tasks = []
     for nsucc in range(1, nmax + 1):
-        for kinds in itertools.product(['none', 'lit', 'ref'], repeat=nsucc):
+        # thorough: one successor with every value class (Float / Bool included) and all operators; two and three successors on the Int / Str / Null classes
+        # (the exploration multiplies per successor; floating-point comparisons of one filter are already covered at one successor and by C09)
+        tier_n = 'thorough' if (ctx.tier == 'thorough' and nsucc == 1) else 'quick'
+        kind_sets = ['none', 'lit', 'ref'] if nsucc <= 2 else ['none', 'lit']
+        for kinds in itertools.product(kind_sets, repeat=nsucc):
             ops = OPS if any(k != 'none' for k in kinds) else ['Eq']
-            if nsucc >= 2: ops = ['Eq', 'Lt'] if any(k != 'none' for k in kinds) else ['Eq']
+            if nsucc == 2: ops = ['Eq', 'Lt'] if any(k != 'none' for k in kinds) else ['Eq']
+            if nsucc >= 3: ops = ['Lt'] if any(k != 'none' for k in kinds) else ['Eq']
             for op in ops:
                 for strict in (False, True):
                     if strict and (nsucc > 1 or op not in ('Eq', 'Lt')): continue
-                    tasks.append((nsucc, kinds, op, strict, ctx.tier))
+                    tasks.append((nsucc, kinds, op, strict, tier_n))
     with ProcessPoolExecutor(max_workers=14, mp_context=mp.get_context('fork')) as pool:
         res = list(pool.map(_worker, tasks))
     binp = None; seen = set()
